@@ -62,8 +62,11 @@ func sameOrigin(a, b *url.URL) bool {
 	if bPort == "" {
 		bPort = defaultPort(b.Scheme)
 	}
-	return strings.EqualFold(a.Scheme, b.Scheme) &&
-		strings.EqualFold(a.Hostname(), b.Hostname()) &&
+	// The same comparison as the cache key's (makeURLKey): ASCII case only.
+	// strings.EqualFold uses Unicode folding ("\u017f" equals "s"), which would
+	// let a response invalidate the entries of another origin.
+	return asciiLower(a.Scheme) == asciiLower(b.Scheme) &&
+		asciiLower(a.Hostname()) == asciiLower(b.Hostname()) &&
 		aPort == bPort
 }
 
